@@ -599,7 +599,48 @@ def proof_step(ctx, prop_dir, allow, extra_targets=()):
         ctx.violation("theorem depends on an axiom outside the allow-list: %s" % bad[:3],
                       {"kind": "assumptions", "bad": bad}, found_input=False)
         return False
+    if ctx.tier == "thorough" and not os.environ.get("VERIF_NO_COQCHK"):
+        return coqchk_step(ctx, prop_dir, allow)
     return True
+
+
+def coqchk_step(ctx, prop_dir, allow, timeout=1800):
+    """Thorough tier: re-check <prop_dir>/Properties.vo and everything it depends on with the independent
+    checker.  Obligation: coqchk exits 0 and nothing relies on type-in-type, unsafe (co)fixpoints or assumed
+    positivity.  The axioms it lists (those of every LOADED library, a superset of what the theorems use) are
+    recorded in the evidence; one that is outside the property's allow-list and declared under EsVerif is a
+    violation (none may be declared by this development)."""
+    mod = "EsVerif.%s.Properties" % prop_dir
+    cmd = ["timeout", str(timeout), "coqchk", "-silent", "-o"] + COQFLAGS + [mod]
+    r = subprocess.run(cmd, stdout=subprocess.PIPE, stderr=subprocess.STDOUT, text=True, cwd=COQDIR)
+    ctx.checker_cmds.append("coqchk -silent -o -Q coq/theories EsVerif " + mod)
+    txt = r.stdout
+    sect = {}
+    cur = None
+    for line in txt.splitlines():
+        m = re.match(r"^\* (.*?):\s*(.*)$", line)
+        if m:
+            cur = m.group(1)
+            sect[cur] = [m.group(2).strip()] if m.group(2).strip() else []
+        elif cur is not None and line.strip():
+            sect[cur].append(line.strip())
+    unsafe = []
+    for k, v in sect.items():
+        if k.startswith("Constants/Inductives relying") or k.startswith("Inductives whose positivity"):
+            if v != ["<none>"]:
+                unsafe.append((k, v[:5]))
+    axioms = [a for a in sect.get("Axioms", []) if a != "<none>"]
+    ours = [a for a in axioms if a.startswith("EsVerif.")]
+    ok = r.returncode == 0 and not unsafe and not ours and "Axioms" in sect
+    ctx.obligation("coqchk -o %s: accepted; no type-in-type / unsafe fixpoints / assumed positivity; no axiom declared by this development" % mod,
+                   ok, txt[-600:])
+    ctx.assumptions_txt.append("coqchk -o %s: axioms of all loaded libraries: %s" % (
+        mod, ", ".join(axioms) if axioms else "<none>"))
+    if not ok:
+        ctx.violation("coqchk does not accept %s/Properties.vo (or it relies on switched-off checks / own axioms)" % prop_dir,
+                      {"kind": "coqchk", "returncode": r.returncode, "unsafe": unsafe, "own_axioms": ours,
+                       "log_tail": txt[-2000:]}, found_input=False)
+    return ok
 
 
 VERDICT_TXT = {0: "agree", 1: "model != implementation (property checker accepts the implementation's output)",
